@@ -335,6 +335,13 @@ func (im *Impl) Exec(line string) (out string) {
 	case "resize":
 		nb := atoi(w[1])
 		return res(im.S.Resize(strconv.Itoa(nb * Blk)))
+	case "shrinkb":
+		// a size d bytes below the current one (0 < d < 4096)
+		r := im.rep()
+		if r == nil {
+			return "refused"
+		}
+		return res(im.S.Resize(strconv.Itoa(len(r.VerifLocation())*Blk - atoi(w[1]))))
 	case "punch":
 		types.ShouldPunchHoles = w[1] == "1"
 		return "ok"
@@ -397,6 +404,12 @@ func (im *Impl) Exec(line string) (out string) {
 		return im.rbLunmapW(atoi(w[1]), atoi(w[2]), atoi(w[3]))
 	case "rbpromote":
 		return im.rbPromote()
+	case "rbpromotew":
+		off, n, tag := atoi(w[1]), atoi(w[2]), atoi(w[3])
+		if im.rep() == nil || off+n > im.nbUnits() || im.rb == nil || im.rb.real {
+			return "inadmissible"
+		}
+		return im.rbPromoteW(off, n, tag)
 	case "rbend":
 		return im.rbEnd()
 	case "cmp":
